@@ -131,6 +131,9 @@ pub fn run_case(case: &Case, cfgs: &[Cfg], acc: &mut Acc) {
                 acc.held += 1;
                 if m.nodes >= 20 {
                     acc.nontrivial.insert(xh);
+                    if acc.samples.len() < 3 && case.text.len() < 160 {
+                        acc.sample(json!({"input": case.text, "cfg": cfg.json(), "origin": case.origin, "syntax_nodes": m.nodes, "conversions[expr,pattern,markup,math]": m.conversions, "bytes_allocated": m.alloc}));
+                    }
                 }
             }
             Some((oracle, detail)) => {
